@@ -53,7 +53,10 @@ ASSUMPTIONS = ["float64 CPU", "statistical clauses: per-test alpha = 1e-12 (exac
                "tests per run => per-run false-alarm probability < 1e-8; the run-level mean-temperature clause uses a standard "
                "error that is >= 2x the true one", "masses of the shipped table are the property's given",
                "kinetic temperature of the Bussi-Parrinello scheme is unbiased at step ends for harmonic modes; anharmonic / "
-               "initial-transient bias is covered by the 1 % allowance (burn-in >= 8 tau)"]
+               "initial-transient bias is covered by the 1 % allowance (burn-in >= 8 tau)",
+               "angular COM-removal cells use water-only replicas: a diatomic has ONE internal degree of freedom, at a vibrational turning "
+               "point nothing is left after COM + rotation removal and _zero_com raises 'Zero kinetic energy after removing COM momentum' "
+               "(observed on the unchanged tree with 128 H2 x 400 steps; reported as an observation, not judged here)"]
 REQUIRED_MONITORS = ["identity_atoms", "identity_engines", "identity_reuse", "meanT_reused_driver", "stat_tests", "thermostat_updates", "meanT_samples", "tauinf_pairs",
                      "tzero_hook_calls", "call_steps_damped", "call_steps_undamped", "resumed_steps_damped", "resumed_steps_undamped", "comrem_ke_events"]
 CASE_TIMEOUT = 1500.0
@@ -105,12 +108,12 @@ def gen_cases(tier, seed):
         cases.append({"kind": "meanT", "nH2O": 96, "nH2": 96, "dt": 0.2, "tau": 1.0, "T": 300.0, "burn": 50, "steps": 100,
                       "stage1": {"T": 50.0, "steps": 6}, "seed": s(), "geom_seed": s()})
         for rc in (["linear", 1], ["angular", 2]):
-            cases.append({"kind": "meanT", "nH2O": 48, "nH2": 48, "dt": 0.2, "tau": 1.0, "T": 300.0, "burn": 50, "steps": 100,
+            cases.append({"kind": "meanT", "nH2O": 48 if rc[0] == "linear" else 80, "nH2": 48 if rc[0] == "linear" else 0, "dt": 0.2, "tau": 1.0, "T": 300.0, "burn": 50, "steps": 100,
                           "remove_com": rc, "seed": s(), "geom_seed": s()})
     else:
         for rc, dt, tau in ((["linear", 1], 0.2, 1.0), (["angular", 1], 0.2, 1.0), (["linear", 5], 0.1, 2.0), (["angular", 10], 0.2, 0.5)):
-            cases.append({"kind": "meanT", "nH2O": 128, "nH2": 128, "dt": dt, "tau": tau, "T": 300.0, "burn": int(round(10 * tau / dt)),
-                          "steps": 400, "remove_com": rc, "seed": s(), "geom_seed": s()})
+            cases.append({"kind": "meanT", "nH2O": 128 if rc[0] == "linear" else 200, "nH2": 128 if rc[0] == "linear" else 0, "dt": dt, "tau": tau,
+                          "T": 300.0, "burn": int(round(10 * tau / dt)), "steps": 400, "remove_com": rc, "seed": s(), "geom_seed": s()})
         for dt, tau, T in ((0.1, 2.0, 300.0), (0.2, 1.0, 300.0), (0.1, 0.5, 600.0), (0.2, 1.0, 150.0)):
             cases.append({"kind": "meanT", "nH2O": 128, "nH2": 128, "dt": dt, "tau": tau, "T": T, "burn": int(round(10 * tau / dt)),
                           "steps": 600, "seed": s(), "geom_seed": s()})
@@ -447,7 +450,7 @@ def _meanT(case):
     sett = run.settings("AM1", eps=1e-7, converger=(2,))
     T, dt, tau = case["T"], case["dt"], case["tau"]
     nwatch = 4
-    molid = [0, 1, case["nH2O"], case["nH2O"] + 1][:nwatch]
+    molid = [k for k in [0, 1, case["nH2O"], case["nH2O"] + 1][:nwatch] if k < len(S)]
     series = []  # per step: m v^2 per atom summed over xyz, [B, M]
 
     def pre_run(mol, mdo):
@@ -506,6 +509,8 @@ def _meanT(case):
     obs = {"window_steps": nW, "N_eff_per_dof": neff, "replicas": len(S)}
     sums = {}
     for name, sel in groups.items():
+        if not sel.any():
+            continue
         ndof = 3.0 * sel.sum()
         Tm = float(W[:, sel].sum() / nW / (ndof * md.REF_KB_AMU))
         sigma = math.sqrt(2.0 / (ndof * neff))
